@@ -242,8 +242,8 @@ func Run(plan Plan, watchdog time.Duration) (res *Result) {
 	faultsOn.Store(true)
 	fnet := &faultnet.Net{}
 	fnet.Decide = func(r *faultnet.Req) faultnet.Action {
-		if !faultsOn.Load() {
-			return faultnet.Action{}
+		if !faultsOn.Load() || r.ClientID != "vcons" {
+			return faultnet.Action{} // faults hit the consumer under test only, not the workload's producers
 		}
 		fmu.Lock()
 		defer fmu.Unlock()
@@ -461,6 +461,7 @@ func Run(plan Plan, watchdog time.Duration) (res *Result) {
 	// ---------------- consumer
 	hook := &fhook{state: map[*kgo.Record]int{}, w: w}
 	copts := []kgo.Opt{
+		kgo.ClientID("vcons"),
 		kgo.WithHooks(hook),
 		kgo.FetchMaxWait(50 * time.Millisecond),
 		kgo.RetryBackoffFn(func(n int) time.Duration { return time.Duration(1+n) * 2 * time.Millisecond }),
